@@ -162,6 +162,25 @@ PROPS = {
                  "message and identifier texts longer than 2 characters; non-printable text"],
         assumptions=["a legal failure response carries status and reason; the message is optional (KMIP 1.x 6.11)"],
     ),
+    "C10": dict(
+        modules=[],
+        custom="kv.conc",
+        level="model_checking",
+        explanation="The schedule quantifier is decided by z3 over access traces recorded from the real code: each "
+                    "request of a menu is served once by the real KmipSession + KmipEngine with a recording engine "
+                    "subclass (reads/writes of every instance field assigned outside __init__ or written during a "
+                    "request) and recording locks (every lock the engine module creates). One SMT query per group of "
+                    "requests asks for an interleaving with a conflict cycle; unsat means every interleaving of these "
+                    "traces is conflict-serialisable. A reachability witness (same query with lock events deleted) must "
+                    "be sat.",
+        stubs=["FakeSession", "FakeConnection/FakeCert", "RecordingCrypto", "recording lock in place of threading.RLock",
+               "engine.time pinned"],
+        outside=["requests outside the menu; control flow that changes under interleaving (traces are from serial runs)",
+                 "more than 3 concurrent requests", "SQLite-level isolation between the sessions' transactions",
+                 "in-place mutation of shared containers (covered by C11's engine frame check)"],
+        assumptions=["CPython attribute reads/writes are atomic (GIL)", "threading.RLock semantics",
+                     "the only object shared between sessions is the engine (ast read-out of server.py)"],
+    ),
     "C15": dict(
         modules=["harness.c15"],
         level="other",
@@ -219,6 +238,18 @@ PROPS = {
 }
 
 CLAIMS = {
+    "C10": dict(
+        text="BOUNDED MODEL over recorded traces: for every pair (thorough: listed triples) of requests from the "
+             "menu, served by different sessions on one engine, z3 shows that no interleaving of their recorded "
+             "shared-field accesses and lock events - program order kept, lock sections mutually exclusive, timed "
+             "acquires allowed to fail only while the lock is held - contains a conflict cycle, so every schedule is "
+             "equivalent to a serial order of whole requests. A satisfiable query is replayed with real threads forced "
+             "into the solver's schedule and reported only if responses or store differ from every serial order.",
+        note="Traces come from concrete runs of the real session+engine code (one per request of the menu); the "
+             "solver quantifies over schedules, not over requests. GIL-atomic attribute access assumed.",
+        technique="trace-based bounded model checking with z3: event traces recorded from the real code, all "
+                  "interleavings decided by one SMT query per request group, counterexample schedules replayed on real threads",
+    ),
     "C19": dict(
         text="For each client method in the table and KMIP version, and every legal response in the bounds (status, "
              "any reason, message absent or any printable text, Operation field present or not, identifier text), "
